@@ -3,7 +3,7 @@ import interp_common
 from core import rng, run_cases
 
 MODULES = ["Props.C04"]
-THEOREMS = ["Props.C04.c04_line", "Props.C04.c04_run_monotone", "Props.C04.c04_loop_never_writes", "Props.C04.c04_aggregate"]
+THEOREMS = ["Props.C04.c04_line", "Props.C04.c04_run_monotone", "Props.C04.c04_loop_never_writes", "Props.C04.c04_aggregate", "Props.C04.c04_unexecuted_branch"]
 
 
 def run(check, tier):
